@@ -24,6 +24,7 @@ class Ctx:
         self.fork_timeout_ms = 20000
         self.resolve_guards = True
         self.purify_div = True
+        self.lazy = False              # lazy forks: no feasibility query at a fork (checked when a candidate arises)
         self.reset_path()
 
     def reset_path(self):
@@ -42,6 +43,8 @@ class Ctx:
         self.stub_reg = {}
         self.divisors = []         # (divisor term, proven_nonzero)
         self.implied_cache = {}
+        self.decided = {}              # condition ast id -> decision on this path
+        self.order = {}                # term id -> {term id: strict}   edges x -> y meaning x > y (strict) or x >= y
         self.notes = []
 
     def fresh(self, name, sort='R'):
@@ -100,19 +103,63 @@ def _mk_solver(timeout_ms, tactic=None, seed=None):
     return s
 
 
-def vars_of(e, acc=None):
-    acc = set() if acc is None else acc
-    stack = [e]
-    seen = set()
+_VARS = {}      # ast id -> (term kept alive, frozenset of uninterpreted-constant ids)
+
+
+def _vars_cached(e):
+    i = e.get_id()
+    hit = _VARS.get(i)
+    if hit is not None:
+        return hit[1]
+    # iterative post-order over the DAG with memoisation
+    stack = [(e, False)]
     while stack:
-        t = stack.pop()
-        i = t.get_id()
-        if i in seen:
+        t, done = stack.pop()
+        ti = t.get_id()
+        if ti in _VARS:
             continue
-        seen.add(i)
-        if z3.is_const(t) and t.decl().kind() == z3.Z3_OP_UNINTERPRETED:
-            acc.add(i)
-        stack.extend(t.children())
+        ch = t.children()
+        if not ch:
+            if z3.is_const(t) and t.decl().kind() == z3.Z3_OP_UNINTERPRETED:
+                _VARS[ti] = (t, frozenset((ti,)))
+            else:
+                _VARS[ti] = (t, frozenset())
+            continue
+        if done:
+            acc = set()
+            for c in ch:
+                acc |= _VARS[c.get_id()][1]
+            _VARS[ti] = (t, frozenset(acc))
+        else:
+            stack.append((t, True))
+            for c in ch:
+                if c.get_id() not in _VARS:
+                    stack.append((c, False))
+    return _VARS[i][1]
+
+
+_PYVARS = {}
+
+
+def _pyvars(f):
+    """variable set by python object identity (pool members are long-lived list elements)"""
+    k = id(f)
+    hit = _PYVARS.get(k)
+    if hit is not None and hit[0] is f:
+        return hit[1]
+    v = _vars_cached(f)
+    _PYVARS[k] = (f, v)
+    return v
+
+
+_IMPLIED_GLOBAL = {}   # ast hash -> [(term, result)]   definite results are monotone in the fact set
+
+
+def vars_of(e, acc=None):
+    v = _vars_cached(e)
+    if acc is None:
+        return set(v)
+    acc |= v
     return acc
 
 
@@ -121,7 +168,7 @@ def cone(goal_terms, pool):
     want = set()
     for g in goal_terms:
         vars_of(g, want)
-    items = [(f, vars_of(f)) for f in pool]
+    items = [(f, _pyvars(f)) for f in pool]
     chosen = []
     left = items
     changed = True
@@ -140,9 +187,9 @@ def cone(goal_terms, pool):
     return chosen
 
 
-def solve(neg_goal, extra=(), timeout_ms=30000, use_cone=True, tactic=None, seed=None, facts=None):
+def solve(neg_goal, extra=(), timeout_ms=30000, use_cone=True, tactic=None, seed=None, facts=None, with_path=True):
     """check pre & facts & path & extra & neg_goal.  returns (verdict, model|None)"""
-    pool = list(CTX.pre) + list(CTX.facts if facts is None else facts) + CTX.path_terms() + list(extra)
+    pool = list(CTX.pre) + list(CTX.facts if facts is None else facts) + (CTX.path_terms() if with_path else []) + list(extra)
     if use_cone:
         pool = cone([neg_goal], pool)
     s = _mk_solver(timeout_ms, tactic, seed)
@@ -161,6 +208,73 @@ def solve(neg_goal, extra=(), timeout_ms=30000, use_cone=True, tactic=None, seed
     return r, (s.model() if r == 'sat' else None)
 
 
+_ATOMS = {}      # ast id of a nonlinear product -> (term, fresh atom)
+_NL_CACHE = {}   # ast id -> (term, tuple of top-most nonlinear products inside)
+
+
+def _is_numeral(t):
+    return z3.is_rational_value(t) or z3.is_int_value(t) or z3.is_algebraic_value(t)
+
+
+def _nonlinear_products(t):
+    """top-most nonlinear product subterms of t (memoised over the DAG)"""
+    i = t.get_id()
+    hit = _NL_CACHE.get(i)
+    if hit is not None:
+        return hit[1]
+    out = []
+    seen = set()
+    stack = [t]
+    while stack:
+        u = stack.pop()
+        ui = u.get_id()
+        if ui in seen:
+            continue
+        seen.add(ui)
+        if z3.is_app(u) and u.decl().kind() in (z3.Z3_OP_MUL, z3.Z3_OP_POWER, z3.Z3_OP_DIV):
+            non_num = [c for c in u.children() if not _is_numeral(c)]
+            if len(non_num) >= 2 or (u.decl().kind() != z3.Z3_OP_MUL and len(non_num) >= 1):
+                out.append(u)
+                continue
+        stack.extend(u.children())
+    _NL_CACHE[i] = (t, tuple(out))
+    return _NL_CACHE[i][1]
+
+
+def linear_abstraction(formulas):
+    """replace every top-most nonlinear product by a fresh real atom (same term -> same atom).
+    Over-approximation: unsat of the abstraction implies unsat of the original."""
+    out = []
+    for f in formulas:
+        subs = []
+        for u in _nonlinear_products(f):
+            ui = u.get_id()
+            if ui not in _ATOMS:
+                _ATOMS[ui] = (u, z3.Real('atom!%d' % len(_ATOMS)))
+            subs.append((u, _ATOMS[ui][1]))
+        out.append(z3.substitute(f, *subs) if subs else f)
+    return out
+
+
+def solve_linear(neg_goal, extra=(), timeout_ms=3000, with_path=True, want_model=False):
+    pool = list(CTX.pre) + list(CTX.facts) + (CTX.path_terms() if with_path else []) + list(extra)
+    pool = cone([neg_goal], pool)
+    s = z3.Solver()
+    s.set('timeout', int(timeout_ms))
+    t0 = time.time()
+    try:
+        for f in linear_abstraction(pool + [neg_goal]):
+            s.add(f)
+        r = str(s.check())
+    except z3.Z3Exception:
+        r = 'unknown'
+    CTX.stats['queries'] += 1
+    CTX.stats['solver_s'] += time.time() - t0
+    if want_model:
+        return r, (s.model() if r == 'sat' else None)
+    return r
+
+
 PORTFOLIO = [
     dict(),
     dict(tactic='qfnra-nlsat'),
@@ -170,7 +284,21 @@ PORTFOLIO = [
 
 
 def decide(neg_goal, extra=(), timeout_ms=30000, facts=None):
-    """portfolio: first definite answer wins"""
+    """staged context (a proof from fewer assumptions is a proof), then portfolio: first definite answer wins"""
+    has_path = bool(CTX.path_terms())
+    if facts is None and solve_linear(neg_goal, extra=(), timeout_ms=min(3000, timeout_ms)) == 'unsat':
+        return 'unsat', None
+    stages = [dict(extra=(), with_path=False, t=min(3000, timeout_ms))]
+    if has_path:
+        stages.append(dict(extra=(), with_path=True, t=min(5000, timeout_ms)))
+    if extra and has_path:
+        stages.append(dict(extra=extra, with_path=False, t=min(timeout_ms // 2, 10000)))
+    for st in stages:
+        if not extra and st['with_path'] == has_path:
+            break                      # identical to the full query below
+        r, m = solve(neg_goal, extra=st['extra'], timeout_ms=st['t'], facts=facts, with_path=st['with_path'])
+        if r == 'unsat':
+            return r, None
     last = 'unknown'
     for i, cfg in enumerate(PORTFOLIO):
         t = timeout_ms if i == 0 else max(timeout_ms // 2, 2000)
@@ -188,8 +316,13 @@ def implied(e, timeout_ms=None):
     k = (e.get_id(), len(CTX.path), len(CTX.pre), len(CTX.simple))
     if k in CTX.implied_cache:
         return CTX.implied_cache[k]
+    if CTX.lazy:
+        h = (e.hash(), len(CTX.pre))
+        for t, rr, ns in _IMPLIED_GLOBAL.get(h, ()):
+            if t.eq(e):
+                return rr
     res = None
-    pool = list(CTX.pre) + CTX.path_terms() + list(CTX.simple)
+    pool = list(CTX.pre) + ([] if CTX.lazy else CTX.path_terms()) + list(CTX.simple)
     pool = cone([e], pool)
     for val, f in ((True, z3.Not(e)), (False, e)):
         s = z3.Solver()
@@ -208,7 +341,78 @@ def implied(e, timeout_ms=None):
             res = val
             break
     CTX.implied_cache[k] = res
+    if CTX.lazy:
+        _IMPLIED_GLOBAL.setdefault((e.hash(), len(CTX.pre)), []).append((e, res, len(CTX.simple)))
     return res
+
+
+def _as_order(e):
+    """e -> (x, y, strict) meaning x > y / x >= y, or None"""
+    neg = False
+    while z3.is_not(e):
+        e = e.arg(0)
+        neg = not neg
+    if z3.is_gt(e):
+        x, y, strict = e.arg(0), e.arg(1), True
+    elif z3.is_ge(e):
+        x, y, strict = e.arg(0), e.arg(1), False
+    elif z3.is_lt(e):
+        x, y, strict = e.arg(1), e.arg(0), True
+    elif z3.is_le(e):
+        x, y, strict = e.arg(1), e.arg(0), False
+    else:
+        return None
+    if neg:                       # not (x > y)  ==  y >= x ;  not (x >= y) == y > x
+        x, y, strict = y, x, not strict
+    return x, y, strict
+
+
+def _reach(src, dst):
+    """best path src ->* dst in the order graph: None (unreachable), False (>=), True (> somewhere)"""
+    best = None
+    seen = {}
+    stack = [(src, False)]
+    while stack:
+        n, st = stack.pop()
+        if n in seen and (seen[n] or not st):
+            continue
+        seen[n] = st
+        if n == dst:
+            if st:
+                return True
+            best = False
+        for m, s2 in CTX.order.get(n, {}).items():
+            stack.append((m, st or s2))
+    return best
+
+
+def order_implied(e):
+    """decide an order atom from the atoms already on the path by transitivity (sound, incomplete)"""
+    o = _as_order(e)
+    if o is None:
+        return None
+    x, y, strict = o
+    xi, yi = x.get_id(), y.get_id()
+    if xi == yi:
+        return not strict
+    r = _reach(xi, yi)            # x >= y or x > y known
+    if r is True or (r is False and not strict):
+        return True
+    r2 = _reach(yi, xi)           # y >= x or y > x known
+    if r2 is True or (r2 is False and strict):
+        return False
+    return None
+
+
+def order_learn(e, decision):
+    o = _as_order(e if decision else z3.Not(e))
+    if o is None:
+        return
+    x, y, strict = o
+    d = CTX.order.setdefault(x.get_id(), {})
+    d[y.get_id()] = strict or d.get(y.get_id(), False)
+    CTX.notes_keep = getattr(CTX, 'notes_keep', [])
+    CTX.notes_keep.append((x, y))     # keep terms alive (ids stay valid)
 
 
 def feasible(c):
@@ -227,11 +431,13 @@ def fork(cond):
         CTX.schedule.append(d)
     c = cond if d else z3.Not(cond)
     CTX.stats['forks'] += 1
-    r = feasible(c)
-    if r == 'unsat':
-        CTX.path.append(('infeasible', c))
-        raise Abort('infeasible')
+    if not CTX.lazy:
+        r = feasible(c)
+        if r == 'unsat':
+            CTX.path.append(('infeasible', c))
+            raise Abort('infeasible')
     CTX.path.append(c)
+    CTX.decided[cond.get_id()] = d
     return d
 
 
@@ -295,11 +501,23 @@ class SB:
         c = self.conc()
         if c is not None:
             return c
-        if CTX.resolve_guards:
+        k = self.e.get_id()
+        if k in CTX.decided:
+            return CTX.decided[k]
+        if z3.is_not(self.e) and self.e.arg(0).get_id() in CTX.decided:
+            return not CTX.decided[self.e.arg(0).get_id()]
+        if CTX.resolve_guards and not CTX.lazy:
             c = implied(self.e)
             if c is not None:
                 return c
-        return fork(self.e)
+        if CTX.lazy:
+            c = order_implied(self.e)
+            if c is not None:
+                return c
+        d = fork(self.e)
+        if CTX.lazy:
+            order_learn(self.e, d)
+        return d
 
     def __and__(self, o):
         return SB(z3.And(self.e, SB(o).e))
@@ -581,6 +799,8 @@ class SR:
         if k not in CTX.exp_reg:
             e = CTX.fresh('exp')
             CTX.fact(e > 0, simple=True)
+            CTX.fact(z3.Implies(self.z >= 0, e >= 1), simple=True)
+            CTX.fact(z3.Implies(self.z <= 0, e <= 1), simple=True)
             CTX.exp_reg[k] = (self.z, e)
         return SR(CTX.exp_reg[k][1])
 
